@@ -19,6 +19,10 @@ def scenarios(tier, seed):
             for n in sizes:
                 if tier == "quick" and n > 65537:
                     continue
+                if ou and n > 100000:
+                    # a captured value is exported as an environment variable: above 128 KiB (MAX_ARG_STRLEN) every later
+                    # exec of the process fails with E2BIG, which says nothing about the log
+                    continue
                 i += 1
                 # (with output: the stderr size is capped: the captured value - which, F-11c, includes stderr - must stay
                 # below the 128 KiB limit of one environment string or every later exec fails with E2BIG)
